@@ -56,6 +56,7 @@ def run(chk: Check, proj: Project) -> None:
     s3_depth(chk, proj, w)
     s4_regex(chk, proj)
     s5_faithful(chk, proj)
+    s5b_serialize_order(chk, proj)
 
 
 # ---------------------------------------------------------------------------------------------
@@ -513,6 +514,30 @@ def s4_regex(chk: Check, proj: Project) -> None:
                        f"degree {a['degree']} (repeats {a['repeats']}, {'unanchored' if unanch else 'anchored/match'}), star height {a['star_height']}" if good else
                        f"{name} has {a['repeats']} sequential unbounded repeats that overlap their continuation (degree {a['degree']}): matching a failing input of length n backtracks ~n^{a['degree']} times", detail=a)
     chk.floor("S4", n, 2)
+
+
+def s5b_serialize_order(chk: Check, proj: Project) -> None:
+    chk.rule("S5b", "TagValuePart.serialize wraps inside-out: quotes, then the translation `_( )`, then the spread / filter prefix in front of everything")
+    m, f = proj.func("util.tag_parser", "TagValuePart.serialize")
+    rets = [r for r in stmts(f) if isinstance(r, ast.Return) and isinstance(r.value, ast.Name)]
+    if not rets:
+        chk.undecided("S5b", "util.tag_parser:TagValuePart.serialize:shape", m.loc(f), "no `return <name>`")
+        return
+    v = rets[-1].value.id
+    steps = []
+    for st, val in assignments(f, v):
+        t = norm(val) if val is not None else ""
+        kind = "quote" if "self.quoted" in t else "translation" if "_(" in t else "prefix" if ("self.filter" in t or "self.spread" in t or "prefix" in t) else "other"
+        # a prefix step must PREPEND to the current value
+        if kind == "prefix" and not (isinstance(val, ast.JoinedStr) and isinstance(val.values[-1], ast.FormattedValue) and norm(val.values[-1].value) == v):
+            kind = "prefix-misplaced"
+        steps.append((st.lineno, kind))
+    order = [k for _l, k in sorted(steps)]
+    tr = [i for i, k in enumerate(order) if k == "translation"]
+    pf = [i for i, k in enumerate(order) if k.startswith("prefix")]
+    ok = bool(tr) and bool(pf) and max(tr) < min(pf) and "prefix-misplaced" not in order
+    chk.ob("S5b", "util.tag_parser:TagValuePart.serialize:wrap-order", m.loc(f), ok, f"wrapping steps in order: {order}" if ok else
+           f"the serialisation steps are {order}: a filter / spread prefix is applied before (inside) the translation wrapper, so `name|default:_(\"x\")` serialises to text that re-parses to different arguments")
 
 
 def s5_faithful(chk: Check, proj: Project) -> None:
